@@ -150,7 +150,7 @@ class Pre:
 
 
 def sym_state(inp, o, now, n, role=None, term_hi=4, base_hi=3, observers=(), connected=None,
-              commands=None, term_lo=0, tag=''):
+              commands=None, term_lo=0, tag='', stale_tables=False):
     """Put an arbitrary well-formed state into the real object `o`.
     n = entries in the log; role None = case split over F/C/L.  Returns Pre."""
     from .core import And, Or, Implies
@@ -227,9 +227,15 @@ def sym_state(inp, o, now, n, role=None, term_hi=4, base_hi=3, observers=(), con
                 inp.assume(r <= now)
                 get(o, 'lastResponseTime')[x] = r
                 p.resp[x.id] = r
-    else:
-        # followers keep (stale) tables too: keys exist for every voter after the first leadership; harmless
-        pass
+    elif stale_tables and selfnode is not None:
+        # a former leader keeps its (stale) tables: arbitrary old values, which a new leadership must not reuse
+        for x in others:
+            nx = inp.int(tag + 'stale_next_' + x.id, 1, base_hi + n + 1)
+            mt = inp.int(tag + 'stale_match_' + x.id, 0, base_hi + n)
+            get(o, 'raftNextIndex')[x] = nx
+            get(o, 'raftMatchIndex')[x] = mt
+            get(o, 'lastResponseTime')[x] = now - 1000
+            p.next[x.id], p.match[x.id] = nx, mt
     return p
 
 
